@@ -90,6 +90,16 @@ func (hs *ChainedHotStuff) VoteRule(_ hotstuff.View, proposal hotstuff.ProposeMs
 	hash := block.QuorumCert().BlockHash()
 	qcBlock, haveQCBlock := hs.blockchain.Get(hash)
 
+	// Voting for the block locks the block that the certificate of qcBlock certifies (see CommitRule).
+	// A replica that cannot get hold of that block cannot keep its lock up to date: a later vote would
+	// be checked against a stale lock. It must not vote.
+	if haveQCBlock && qcBlock.Hash() != hotstuff.GetGenesis().Hash() {
+		if _, ok := hs.qcRef(qcBlock.QuorumCert()); !ok {
+			hs.logger.Info("VoteRule: cannot determine the block to lock")
+			return false
+		}
+	}
+
 	safe := false
 	if haveQCBlock && qcBlock.View() > hs.bLock.View() {
 		safe = true
